@@ -52,14 +52,14 @@ def check_build(case):
     s = libx.call('build', CScript, libtoks)[1]
     if bytes(s) != want:
         i = next((k for k, (a, b) in enumerate(zip(bytes(s), want)) if a != b), min(len(s), len(want)))
-        raise Violation('build/bytes', 'CScript(%r..) built %s.. expected %s.. (first difference at byte %d)' % (
-            [str(t)[:20] for t in toks[:4]], bytes(s)[max(0, i - 2):i + 6].hex(), want[max(0, i - 2):i + 6].hex(), i))
+        raise Violation('build/bytes', 'CScript(%s..) built %s.. expected %s.. (first difference at byte %d)' % (
+            _s(toks[:4]), bytes(s)[max(0, i - 2):i + 6].hex(), want[max(0, i - 2):i + 6].hex(), i))
     it = [_norm(x) for x in libx.call('iterate', list, s)[1]]
     exp = S.cooked(toks)
     if it != exp:
         k = next((j for j, (a, b) in enumerate(zip(it, exp)) if a != b), min(len(it), len(exp)))
-        raise Violation('build/iterate', 'iterating yields %r at position %d, expected %r' % (
-            it[k] if k < len(it) else None, k, exp[k] if k < len(exp) else None))
+        raise Violation('build/iterate', 'iterating yields %s at position %d, expected %s' % (
+            _s(it[k] if k < len(it) else None), k, _s(exp[k] if k < len(exp) else None)))
     # rebuilding from the iterated sequence reproduces the same bytes
     re = libx.call('rebuild', CScript, list(s))[1]
     if bytes(re) != want:
@@ -94,6 +94,18 @@ def check_build(case):
     if bytes(libx.call('build-tuple', CScript, tuple(libtoks))[1]) != want:
         raise Violation('build/tuple', 'CScript(tuple of tokens) differs from CScript(list of tokens)')
     return {'nt': len(toks) >= 2, 'cls': ['build'], 'evals': 7}
+
+
+def _s(x):
+    """text for a message: integers beyond 64 bits as (shortened) hex - decimal conversion of huge ints is refused by Python"""
+    if isinstance(x, int) and not isinstance(x, bool) and abs(x) >= 1 << 64:
+        h = '%x' % abs(x)
+        return ('-' if x < 0 else '') + '0x' + (h if len(h) <= 40 else h[:20] + '..(%d hex digits)..' % len(h) + h[-8:])
+    if isinstance(x, (bytes, bytearray)):
+        return bytes(x).hex()[:60]
+    if isinstance(x, (list, tuple)):
+        return '[' + ', '.join(_s(y) for y in x[:6]) + (', ..' if len(x) > 6 else '') + ']'
+    return repr(x)[:80]
 
 
 def _iv(x):
@@ -226,7 +238,7 @@ def check_num(case):
     got = libx.call('vch2bn', vch2bn, b)[1]
     want = S.num_dec(b)
     if got != want:
-        raise Violation('num/decode', 'vch2bn(%s)=%r expected %d' % (b.hex(), got, want))
+        raise Violation('num/decode', 'vch2bn(%s)=%s expected %s' % (b.hex()[:80], _s(got), _s(want)))
     # minimal encodings decode/encode bijectively
     if S.num_enc(want) == b and libx.call('bn2vch', bn2vch, got)[1] != b:
         raise Violation('num/reencode', 'bn2vch(vch2bn(%s)) != %s for a minimal encoding' % (b.hex(), b.hex()))
